@@ -156,15 +156,41 @@ def lastValue (es : List (Bytes × Bytes)) (k : Bytes) : Option Bytes :=
 def assoc (es : List (Bytes × Bytes)) : List (Bytes × Bytes) :=
   (es.map (·.1)).eraseDups.map fun k => (k, (lastValue es k).getD [])
 
-/-- the non-empty sections with their keys and values -/
+/-- the section assigns something: it is "non-empty" -/
+def Sec.assigns (s : Sec) : Bool := !(entriesOf s.body).isEmpty
+
+/-- the non-empty sections with their keys and values, each section read on its own: the meaning of a
+document whose section names are distinct (`meaning_of_distinct`) -/
 def meaningOf (secs : List Sec) : List (Bytes × List (Bytes × Bytes)) :=
   secs.filterMap fun s =>
     let es := entriesOf s.body
     if es.isEmpty then none else some (s.header.name, assoc es)
 
+/-- Sections are looked up by name.  The order in which a look-up goes through the sections of a file:
+the sections before the final one, latest first, then the final one. -/
+def lookupOrder (secs : List Sec) : List Sec :=
+  match secs.reverse with
+  | [] => []
+  | last :: initRev => initRev ++ [last]
+
+/-- the section a look-up by name sees: the first non-empty one of that name in look-up order.  With
+distinct names that is *the* section of that name; a repeated header does not continue the earlier
+section, it starts a section of its own, and look-ups see only one of the two. -/
+def seenSec (all : List Sec) (n : Bytes) : Option Sec :=
+  ((lookupOrder all).filter Sec.assigns).find? (·.header.name == n)
+
+/-- what the API shows for section `s` of the file `all`: its name, with the keys and values of the section
+a look-up of that name sees -/
+def viewOf (all : List Sec) (s : Sec) : Bytes × List (Bytes × Bytes) :=
+  (s.header.name, assoc (entriesOf ((seenSec all s.header.name).getD s).body))
+
+def meaningIn (all secs : List Sec) : List (Bytes × List (Bytes × Bytes)) :=
+  (secs.filter Sec.assigns).map (viewOf all)
+
 /-- what a reader of the file is entitled to see: the non-empty sections with their keys and values.
-Comment lines, blank lines and the preamble contribute nothing. -/
-def meaning (d : Doc) : List (Bytes × List (Bytes × Bytes)) := meaningOf d.secs
+Comment lines, blank lines and the preamble contribute nothing.  (A name that heads several non-empty
+sections is listed once for each of them, every time with the keys `seenSec` finds.) -/
+def meaning (d : Doc) : List (Bytes × List (Bytes × Bytes)) := meaningIn d.secs d.secs
 
 /-! ## well-formedness: the documented grammar, made explicit -/
 
@@ -231,12 +257,10 @@ def linesOk (σ : Style) (d : Doc) : Bool :=
   | l :: ls => (σ.bom.bytes.length + l.length ≤ maxLine && (σ.bom != .none || !startsWithBom l))
                && ls.all fun l => l.length ≤ maxLine && !startsWithBom l
 
-/-- The documented grammar plus the corners the documentation leaves open (see `PV.Props.C16`):
-section names are distinct (repeated headers are not merged). -/
+/-- The documented grammar, line by line (see `PV.Props.C16` for what it leaves out). -/
 def WF (σ : Style) (d : Doc) : Bool :=
   d.preamble.all (·.body.wf)
   && d.secs.all (fun s => s.header.wf && s.body.all (·.body.wf))
-  && distinct (d.secs.map (·.header.name))
   && eolsOk d.eols
   && linesOk σ d
 
